@@ -1203,7 +1203,7 @@ def _random_multi(rng):
     r = rng.random()
     backs = [0] * k if r < 0.6 else [1] * k if r < 0.75 else [rng.randint(0, 1) for _ in range(k)]
     same = rng.random() < 0.7
-    big_cs = (1 << 20) if rng.random() < 0.15 else 64
+    big_cs = (1 << 20) if rng.random() < 0.05 else 64
     cs0 = rng.choice([1, 2, 3, 4, 5, 8, 16, big_cs])
     specs, hists = [], []
     for i in range(k):
@@ -1269,13 +1269,13 @@ def gen_multi(tier, rng):
     boost = 4 if hot.changed() else 1
     # 1. exhaustive small: two indexed fields with the SAME chunk size, every interleaving of their histories
     #    (64 = nothing is flushed before complete(), as with the production default 1 << 20, whose model run costs
-    #    0.4 s per field: the default itself is taken for every 80th case)
+    #    0.4 s per field: the default itself is taken for every 320th case)
     mem_same = [[['idx', 0, cs], ['idx', 0, cs]] for cs in (1, 2, 3, 64)]
     k = 0
     for c in _two_field_cases(3 if big else 2, mem_same):
         yield c
         k += 1
-        if c['fields'][0][2] == 64 and k % (10 if big else 80) == 0:
+        if c['fields'][0][2] == 64 and k % (10 if big else 320) == 0:
             yield {'k': 'multi', 'fields': [['idx', 0, 1 << 20], ['idx', 0, 1 << 20]], 'ops': c['ops']}
     # 2. different chunk sizes
     for c in _two_field_cases(2 if big else 1, [[['idx', 0, 2], ['idx', 0, 3]], [['idx', 0, 3], ['idx', 0, 1]]]):
@@ -1286,7 +1286,7 @@ def gen_multi(tier, rng):
     for c in _two_field_cases(2 if big else 1, h5specs):
         yield c
         k += 1
-        if c['fields'][0][2] == 64 and k % (5 if big else 40) == 0:
+        if c['fields'][0][2] == 64 and k % (5 if big else 160) == 0:
             yield {'k': 'multi', 'fields': [['idx', 1, 1 << 20], ['idx', 1, 1 << 20]], 'ops': c['ops']}
     # 4. two plain fields / a plain and an indexed field
     ta = [[0, 'p', [1, 2]], [0, 'p', [3]], [0, 'c']]
@@ -1527,7 +1527,7 @@ def gen_long(tier, rng):
                 yield _lite_case(h5, cs, [['a', s1], ['', s2, 'b']])
     for n in (255, 256, 257, 1000):
         pool = ['', 'a', 'bc', 'é', '€']
-        for cs in (7, 255, 256, 257, 1000):
+        for cs in ((7, 255, 256, 257, 1000) if n < 1000 else (7, 256)):
             seq = [pool[(i * 7 + i // 5) % 5] for i in range(n)]
             cut = min(n, cs)
             yield _lite_case(0, cs, [seq[:cut], seq[cut:cut + 1], seq[cut + 1:]])
